@@ -7,6 +7,27 @@ import vlib
 from props import bcommon
 
 
+# the opaque tokens of C28.tla (TLA+ strings are ASCII): replaced alike in the program text and in the expected output
+TOKENS = {"~U1~": "\u00e9", "~U2~": "\u2192\U0001F600", "~U3~": "e\u0301"}
+
+
+def subst(x):
+    if isinstance(x, str):
+        for k, v in TOKENS.items():
+            x = x.replace(k, v)
+        return x
+    if isinstance(x, list):
+        return [subst(v) for v in x]
+    if isinstance(x, dict):
+        return {k: subst(v) for k, v in x.items()}
+    return x
+
+
+def non_ascii(c):
+    c["files"] = subst(c["files"])
+    c["expect"] = subst(c["expect"])
+
+
 def run(prop, tier, seed):
     rep = vlib.Report(prop, tier, seed, "translation_validation")
     wd = vlib.workdir(prop)
@@ -21,6 +42,7 @@ def run(prop, tier, seed):
         raise vlib.ToolError("C28 generator produced no cases")
     for c in cases:
         c["maxsteps"] = 20000000
+        non_ascii(c)
     obs = bcommon.run_harness(cases, wd, timeout=30)[0]
     not_compiled = 0
     for c, o in zip(cases, obs):
@@ -61,7 +83,7 @@ def run(prop, tier, seed):
         "spec/lib2/Show.tla transcribes the documented rendering (builtin_types.md, operators.md, interfaces.md)",
         "the spelling of an EMPTY array is not documented: any of '[  ]', '[ ]', '[]' is accepted, uniformly per program",
         "floats: only exact dyadic values n/2^e (e<=12, |n|<2^30); ints beyond 32 bits only as the boundary literals MIN/MAX; "
-        "strings ASCII only (TLA+ literals)",
+        "non-ASCII text only as three fixed sequences (2-, 3-, 4-byte characters, a combining mark) inside two of the string values",
         "types are exhaustive to depth 1 and over constructor chains to depth 3; values per type are a covering set "
         "(every leaf value, widths 0..3, none/some, ok/err), not the full product",
     ]
